@@ -56,6 +56,10 @@ type HStep struct {
 	Dialect string  `json:"dialect,omitempty"` // marshal: lib | node
 	Form    string  `json:"form,omitempty"`    // marshal: self | list | out
 	Into    string  `json:"into,omitempty"`    // marshal: fresh | stale | prev
+	// Wrap (node dialect): "kept" = marshal through the wrapper value NodeJSON() returned at an
+	// earlier step for the same object (and, with Into prev, unmarshal through the wrapper the
+	// previous step used for that target); otherwise a new NodeJSON() value is taken.
+	Wrap string `json:"wrap,omitempty"`
 }
 
 // Hist is a history of one object.
@@ -171,6 +175,8 @@ type kept struct {
 	gOut    *bt.Output
 	gUTXO   *bt.UTXO
 	gUTXOs  *bt.UTXOs
+	wrap    interface{} // node dialect: the NodeJSON() value the target was unmarshalled through
+	rewrap  bool        // unmarshal through the previous record's wrapper value when the previous target is reused
 }
 
 func (k *kept) verify(when string) error {
@@ -211,6 +217,10 @@ func (k *kept) verify(when string) error {
 func (k *kept) unmarshal(c Hist, into string, prev *kept) error {
 	node := k.dialect == "node"
 	var err error
+	var pw interface{} // the wrapper value the previous step used for the target that is reused now
+	if node && k.rewrap && into == "prev" && prev != nil {
+		pw = prev.wrap
+	}
 	switch k.form {
 	case "self":
 		if c.Kind == "tx" {
@@ -221,11 +231,7 @@ func (k *kept) unmarshal(c Hist, into string, prev *kept) error {
 			case into == "prev" && prev != nil && prev.gTx != nil:
 				g, prev.gTx = prev.gTx, nil
 			}
-			if node {
-				err = json.Unmarshal(k.js, g.NodeJSON())
-			} else {
-				err = json.Unmarshal(k.js, g)
-			}
+			err = k.decode(node, g, g.NodeJSON(), pw)
 			k.gTx = g
 		} else if c.Kind == "output" {
 			g := &bt.Output{}
@@ -235,11 +241,7 @@ func (k *kept) unmarshal(c Hist, into string, prev *kept) error {
 			case into == "prev" && prev != nil && prev.gOut != nil:
 				g, prev.gOut = prev.gOut, nil
 			}
-			if node {
-				err = json.Unmarshal(k.js, g.NodeJSON())
-			} else {
-				err = json.Unmarshal(k.js, g)
-			}
+			err = k.decode(node, g, g.NodeJSON(), pw)
 			k.gOut = g
 		} else {
 			g := &bt.UTXO{}
@@ -249,11 +251,7 @@ func (k *kept) unmarshal(c Hist, into string, prev *kept) error {
 			case into == "prev" && prev != nil && prev.gUTXO != nil:
 				g, prev.gUTXO = prev.gUTXO, nil
 			}
-			if node {
-				err = json.Unmarshal(k.js, g.NodeJSON())
-			} else {
-				err = json.Unmarshal(k.js, g)
-			}
+			err = k.decode(node, g, g.NodeJSON(), pw)
 			k.gUTXO = g
 		}
 	case "out":
@@ -264,11 +262,7 @@ func (k *kept) unmarshal(c Hist, into string, prev *kept) error {
 		case into == "prev" && prev != nil && prev.gOut != nil:
 			g, prev.gOut = prev.gOut, nil
 		}
-		if node {
-			err = json.Unmarshal(k.js, g.NodeJSON())
-		} else {
-			err = json.Unmarshal(k.js, g)
-		}
+		err = k.decode(node, g, g.NodeJSON(), pw)
 		k.gOut = g
 	case "list":
 		if c.Kind == "tx" {
@@ -279,11 +273,7 @@ func (k *kept) unmarshal(c Hist, into string, prev *kept) error {
 			case into == "prev" && prev != nil && prev.gTxs != nil:
 				g, prev.gTxs = prev.gTxs, nil
 			}
-			if node {
-				err = json.Unmarshal(k.js, g.NodeJSON())
-			} else {
-				err = json.Unmarshal(k.js, g)
-			}
+			err = k.decode(node, g, g.NodeJSON(), pw)
 			k.gTxs = g
 		} else {
 			g := new(bt.UTXOs)
@@ -293,11 +283,7 @@ func (k *kept) unmarshal(c Hist, into string, prev *kept) error {
 			case into == "prev" && prev != nil && prev.gUTXOs != nil:
 				g, prev.gUTXOs = prev.gUTXOs, nil
 			}
-			if node {
-				err = json.Unmarshal(k.js, g.NodeJSON())
-			} else {
-				err = json.Unmarshal(k.js, g)
-			}
+			err = k.decode(node, g, g.NodeJSON(), pw)
 			k.gUTXOs = g
 		}
 	}
@@ -305,6 +291,19 @@ func (k *kept) unmarshal(c Hist, into string, prev *kept) error {
 		return fmt.Errorf("step %d: %s %s JSON does not unmarshal (%s target): %v (JSON %s)", k.step, k.form, k.dialect, into, err, clip(k.js))
 	}
 	return k.verify("unmarshalled into a " + into + " target")
+}
+
+// decode unmarshals k.js into g: library dialect directly, node dialect through a
+// NodeJSON() wrapper value - a new one, or the kept one of the reused target.
+func (k *kept) decode(node bool, g, fresh, kept interface{}) error {
+	if !node {
+		return json.Unmarshal(k.js, g)
+	}
+	k.wrap = fresh
+	if kept != nil {
+		k.wrap = kept
+	}
+	return json.Unmarshal(k.js, k.wrap)
 }
 
 // fresh returns a copy of the record whose target is a new empty object (used
@@ -326,6 +325,25 @@ func (k *kept) again(c Hist) error {
 // flipped). No later unmarshal of any document may be affected. Every edit is
 // undone when the case ends (the harness restores lengths and values through the
 // same pointers), so that cases stay independent of each other.
+
+// wrapSet keeps, per library object (or list variable), the value its NodeJSON() returned
+// first: wrapper values are objects too, a program may hold on to one and marshal through it
+// again after the object has changed.
+type wrapSet map[interface{}]interface{}
+
+func (w wrapSet) of(ctx *pbt.Ctx, s HStep, obj interface{}, fresh func() interface{}) interface{} {
+	if s.Wrap == "kept" {
+		if v, ok := w[obj]; ok {
+			ctx.Label("wrapper:kept-value-marshalled-again")
+			return v
+		}
+	}
+	v := fresh()
+	if _, ok := w[obj]; !ok {
+		w[obj] = v
+	}
+	return v
+}
 
 type undoList []func()
 
@@ -485,6 +503,8 @@ func histTx(ctx *pbt.Ctx, c Hist) error {
 	var held []*kept
 	var undo undoList
 	defer undo.run()
+	wraps := wrapSet{}
+	listVars := map[bool]*bt.Txs{}
 	marshals, editsBetween, editedSinceMarshal, staleTargets := 0, 0, false, 0
 	for si, s := range c.Steps {
 		nout, nin := len(m.Out), len(m.In)
@@ -609,7 +629,7 @@ func histTx(ctx *pbt.Ctx, c Hist) error {
 				ctx.Label("skipped:ambiguous-shape")
 				continue
 			}
-			k := &kept{step: si, dialect: s.Dialect, form: s.Form}
+			k := &kept{step: si, dialect: s.Dialect, form: s.Form, rewrap: s.Wrap == "kept"}
 			var v interface{}
 			node := s.Dialect == "node"
 			switch s.Form {
@@ -617,18 +637,25 @@ func histTx(ctx *pbt.Ctx, c Hist) error {
 				k.tx = []ref.Tx{cloneModel(m)}
 				v = tx
 				if node {
-					v = tx.NodeJSON()
+					v = wraps.of(ctx, s, tx, tx.NodeJSON)
 				}
 			case "list":
-				l := bt.Txs{tx}
+				// the list VARIABLE lives as long as the history, so that a kept txs.NodeJSON()
+				// value (a pointer to it) describes the list as it stands
+				lp := listVars[s.Flag]
+				if lp == nil {
+					lp = new(bt.Txs)
+					listVars[s.Flag] = lp
+				}
+				*lp = bt.Txs{tx}
 				k.tx = []ref.Tx{cloneModel(m)}
 				if s.Flag {
-					l = bt.Txs{ref.ToLib(c.StaleTx), tx}
+					*lp = bt.Txs{ref.ToLib(c.StaleTx), tx}
 					k.tx = []ref.Tx{cloneModel(c.StaleTx), cloneModel(m)}
 				}
-				v = l
+				v = *lp
 				if node {
-					v = l.NodeJSON()
+					v = wraps.of(ctx, s, lp, lp.NodeJSON)
 				}
 			case "out":
 				if nout == 0 {
@@ -642,7 +669,7 @@ func histTx(ctx *pbt.Ctx, c Hist) error {
 				k.obj = UModel{Sats: m.Out[i].Sats, Script: append(pbt.Hex{}, m.Out[i].Script...)}
 				v = tx.Outputs[i]
 				if node {
-					v = tx.Outputs[i].NodeJSON()
+					v = wraps.of(ctx, s, tx.Outputs[i], tx.Outputs[i].NodeJSON)
 				}
 			default:
 				ctx.Discard("malformed case")
@@ -726,6 +753,8 @@ func histObj(ctx *pbt.Ctx, c Hist) error {
 	var held []*kept
 	var undo undoList
 	defer undo.run()
+	wraps := wrapSet{}
+	listVars := map[bool]*bt.UTXOs{}
 	marshals, editsBetween, editedSinceMarshal, staleTargets := 0, 0, false, 0
 	for si, s := range c.Steps {
 		switch s.Op {
@@ -770,7 +799,7 @@ func histObj(ctx *pbt.Ctx, c Hist) error {
 				u.TxID[k] ^= 0x55
 			}
 		case "marshal":
-			k := &kept{step: si, dialect: s.Dialect, form: s.Form}
+			k := &kept{step: si, dialect: s.Dialect, form: s.Form, rewrap: s.Wrap == "kept"}
 			node := s.Dialect == "node"
 			var v interface{}
 			switch {
@@ -778,24 +807,29 @@ func histObj(ctx *pbt.Ctx, c Hist) error {
 				k.obj = cloneU(m)
 				v = u
 				if node {
-					v = u.NodeJSON()
+					v = wraps.of(ctx, s, u, u.NodeJSON)
 				}
 			case s.Form == "self":
 				k.obj = cloneU(m)
 				v = o
 				if node {
-					v = o.NodeJSON()
+					v = wraps.of(ctx, s, o, o.NodeJSON)
 				}
 			case s.Form == "list" && isU:
-				l := bt.UTXOs{u}
+				lp := listVars[s.Flag]
+				if lp == nil {
+					lp = new(bt.UTXOs)
+					listVars[s.Flag] = lp
+				}
+				*lp = bt.UTXOs{u}
 				k.objs = []UModel{cloneU(m)}
 				if s.Flag {
-					l = bt.UTXOs{u, libUTXO(c.StaleObj), u}
+					*lp = bt.UTXOs{u, libUTXO(c.StaleObj), u}
 					k.objs = []UModel{cloneU(m), cloneU(c.StaleObj), cloneU(m)}
 				}
-				v = l
+				v = *lp
 				if node {
-					v = l.NodeJSON()
+					v = wraps.of(ctx, s, lp, lp.NodeJSON)
 				}
 			default:
 				ctx.Discard("malformed case")
@@ -918,8 +952,79 @@ func scriptSoup(t *rapid.T, label string) []byte {
 	return s
 }
 
+// smallInt renders a number the way a template announces it: OP_0, OP_1..OP_16, or a one-byte push above.
+func smallInt(n int) []byte {
+	switch {
+	case n == 0:
+		return []byte{0x00}
+	case n <= 16:
+		return []byte{byte(0x50 + n)}
+	}
+	return []byte{0x01, byte(n)}
+}
+
+func pushOf(d []byte) []byte {
+	switch {
+	case len(d) == 0:
+		return []byte{0x00}
+	case len(d) <= 75:
+		return append([]byte{byte(len(d))}, d...)
+	}
+	return append([]byte{0x4c, byte(len(d))}, d...)
+}
+
+// shapedScript: a script in the SHAPE of a standard template whose announced numbers and parts
+// disagree with what is there - multisig with m and n each 0..20 independent of the 0..5 keys
+// present (key lengths 0, 1, 32, 33, 65), with the head number, the tail number or the final
+// opcode missing or an extra part inserted; P2PKH inscription envelopes with any of their parts
+// missing; P2PKH / P2PK frames around a hash or key of the wrong length.
+func shapedScript(t *rapid.T, label string) []byte {
+	drop := func(what string) bool { return rapid.IntRange(0, 7).Draw(t, label+"_drop_"+what) == 0 }
+	var s []byte
+	switch rapid.IntRange(0, 3).Draw(t, label+"_shape") {
+	case 0, 1: // multisig
+		if !drop("m") {
+			s = append(s, smallInt(rapid.IntRange(0, 20).Draw(t, label+"_m"))...)
+		}
+		for i, k := 0, rapid.IntRange(0, 5).Draw(t, label+"_keys"); i < k; i++ {
+			s = append(s, pushOf(gen.FillBytes(t, rapid.SampledFrom([]int{0, 1, 32, 33, 33, 65}).Draw(t, label+"_klen"), label+"_key"))...)
+		}
+		if drop("extra") {
+			s = append(s, rapid.SampledFrom([][]byte{{0x00}, {0x51}, {0xac}, {0x4c, 0x00}, {0x6a}}).Draw(t, label+"_extra")...)
+		}
+		if !drop("n") {
+			s = append(s, smallInt(rapid.IntRange(0, 20).Draw(t, label+"_n"))...)
+		}
+		if !drop("cms") {
+			s = append(s, 0xae)
+		}
+	case 2: // P2PKH inscription envelope with parts missing
+		parts := [][]byte{{0x76}, {0xa9}, pushOf(gen.Bytes(t, 20, label+"_h")), {0x88}, {0xac}, {0x00}, {0x63}, pushOf([]byte("ord")), {0x51},
+			pushOf([]byte(rapid.SampledFrom([]string{"text/plain", "a", ""}).Draw(t, label+"_ct"))), {0x00},
+			pushOf(gen.FillBytes(t, rapid.IntRange(0, 4).Draw(t, label+"_dl"), label+"_d")), {0x68}}
+		if rapid.Bool().Draw(t, label+"_opret") {
+			parts = append(parts, []byte{0x6a}, pushOf(gen.FillBytes(t, rapid.IntRange(0, 3).Draw(t, label+"_ol"), label+"_o")))
+		}
+		for i, p := range parts {
+			if !drop(fmt.Sprint("part", i)) {
+				s = append(s, p...)
+			}
+		}
+	default: // P2PKH / P2PK frame around the wrong length
+		d := gen.FillBytes(t, rapid.SampledFrom([]int{0, 1, 19, 21, 32, 34, 64, 66}).Draw(t, label+"_flen"), label+"_f")
+		if rapid.Bool().Draw(t, label+"_p2pk") {
+			s = append(pushOf(d), 0xac)
+		} else {
+			s = append(append([]byte{0x76, 0xa9}, pushOf(d)...), 0x88, 0xac)
+		}
+	}
+	return s
+}
+
 func genScriptBytes(t *rapid.T, label string) []byte {
-	switch rapid.IntRange(0, 7).Draw(t, label+"_kind") {
+	switch rapid.IntRange(0, 9).Draw(t, label+"_kind") {
+	case 8, 9:
+		return shapedScript(t, label)
 	case 6, 7:
 		return scriptSoup(t, label)
 	case 0:
@@ -965,6 +1070,7 @@ func genMarshal(t *rapid.T, forms []string) HStep {
 		Dialect: rapid.SampledFrom([]string{"lib", "node"}).Draw(t, "dialect"),
 		Form:    rapid.SampledFrom(forms).Draw(t, "form"),
 		Into:    rapid.SampledFrom([]string{"fresh", "fresh", "stale", "prev", "prev"}).Draw(t, "into"),
+		Wrap:    rapid.SampledFrom([]string{"", "kept"}).Draw(t, "wrap"),
 		Flag:    rapid.Bool().Draw(t, "with_second_element"),
 		I:       rapid.IntRange(0, 7).Draw(t, "mi")}
 }
